@@ -104,6 +104,7 @@ def apiDegradeOnRead (f : FileObj) (ordOut : Nat) (red : String) (pixels : Optio
     | some st => pure { covord := f.covord, spord := ordOut, kind := kindOut, sent := sentOut, st := st }
     | none => throw .runtime
   let wprep (sw : Val) (x : Val) : Val := if x == sw then .num 0 0 else x
+  if !(red == "and" || red == "or") && !cellsFitF64 f.file.data then throw .inexact
   match kind with
   | .packed => throw .notImpl
   | .wide n =>
